@@ -69,7 +69,10 @@ def judge(op, impl, model):
     if blank:
         # empty / whitespace-only input must be rejected
         return "ok" if n.startswith("err/") and d.startswith("err/") else "reject empty-accepted n=%s d=%s" % (n, d)
-    for tag, c in (("NewContext", n), ("DefaultCypherContext", d)):
+    o = _field(impl, "o") or ""
+    if o and d and _cls(o) != _cls(d):
+        return "reject older-default-context-differs fresh=%s older=%s" % (d, o)
+    for tag, c in (("NewContext", n), ("DefaultCypherContext", d), ("OlderDefaultCypherContext", o)):
         if c.startswith("nilnil"):
             return "reject nilnil %s %s" % (tag, _field(model or "", "qkind") or "?")
         if c.startswith("ok/1"):
